@@ -23,6 +23,8 @@ ASSUMPTIONS = ['vlib/minizodb.py + persistent.PickleCache model the ZODB connect
                'sanitizer build (gcc ASan+UBSan, PYTHONMALLOC=malloc) turns reads of evicted/freed nodes into aborts']
 
 OFAMS = ['OO', 'OI', 'OL', 'OU', 'OQ']
+F32_REMOVING = ('del', 'pop', 'popd', 'popitem', 'remove', 'discard', 'clear')
+F32_ADDING = ('set', 'add', 'insert', 'setdefault', 'upd', 'update')
 
 
 def shards(tier, seed):
@@ -173,6 +175,16 @@ class CLive(H.Live):
             if o._p_state == 0:
                 o._p_deactivate()
         return r
+
+    def leaf_count(self):
+        if not self.is_tree:
+            return 1
+        ghosts = [o for o in self.nodes() if o._p_state == -1]
+        n = len(walker.walk(self.t, self.is_map, check=False).leaves)
+        for o in ghosts:
+            if o._p_state == 0:
+                o._p_deactivate()
+        return n
 
     def stored_other(self, kind, toks):
         """a second container, stored in the same connection (the commit also flushes pending changes of the
@@ -480,6 +492,8 @@ def run_case(case, ctx):
                 op = op[:-1]
             P.Hook.reset(at=sweep_at, action=lv.sweep if sweep_at else None)
             sig['insweep'] = False
+            if hook and lv.impl == 'py':
+                sig['multileaf'] = lv.leaf_count() > 1
             if name == 'leaf':
                 _leaf(lv, op, desc, sig, ctx, classes)
                 continue
@@ -505,7 +519,12 @@ def run_case(case, ctx):
             sig['insweep'] = fired
             if fired:
                 nontrivial = True
-                lv.incmp_sweeps += 1
+                # open finding F32 (pure Python does not protect the nodes it works on) is only *exposed* by a sweep
+                # inside a removing call, or inside an adding call on a container that is a single leaf; only then can
+                # later steps (F32b / F32c) be blamed on it
+                if name in F32_REMOVING or (name in F32_ADDING and not sig.get('multileaf', True)):
+                    lv.incmp_sweeps += 1
+                    sig['f32class'] = True
                 classes.append('sweep:in-comparison:' + name)
             if not H.same(got, want, mode):
                 if not fired and ctx.known(dict(H.arg_features(lv, op), impl=lv.impl, kind=lv.kind, op=name,
@@ -529,7 +548,8 @@ def run_case(case, ctx):
         lv.conn.commit()
         lv.conn.minimize()
         left = [o for o in lv.nodes() if o._p_state not in (-1,)]
-        sig = {'impl': lv.impl, 'kind': lv.kind, 'op': 'end', 'hook': hook, 'insweep': False}
+        sig = {'impl': lv.impl, 'kind': lv.kind, 'op': 'end', 'hook': hook, 'insweep': False,
+               'prior_insweep': bool(lv.incmp_sweeps)}
         if left:
             ctx.mismatch('after the history, commit + minimize() leaves %d node(s) unevicted: %r'
                          % (len(left), [(type(o).__name__, o._p_state) for o in left]), dict(sig, what='unevictable'))
